@@ -459,11 +459,21 @@ impl LightClientProtocol {
         debug!("fork to number: {}", to_number);
         let mut matched_blocks = self.peers.matched_blocks().write().expect("poisoned");
         let mut start_number_opt = None;
-        while let Some((start_number, _, _)) = self.storage.get_latest_matched_blocks() {
+        while let Some((start_number, blocks_count, blocks)) =
+            self.storage.get_latest_matched_blocks()
+        {
             if start_number > to_number {
                 debug!("remove matched blocks start from: {}", start_number);
                 self.storage.remove_matched_blocks(start_number);
             } else {
+                // This record is kept, but it may span the fork point: some of its blocks may
+                // belong to the abandoned branch. None of them is proved for the new chain, so
+                // all of them have to be proved again before a block body is accepted.
+                if blocks.iter().any(|(_, proved)| *proved) {
+                    let blocks = blocks.into_iter().map(|(hash, _)| (hash, false)).collect();
+                    self.storage
+                        .add_matched_blocks(start_number, blocks_count, blocks);
+                }
                 start_number_opt = Some(start_number);
                 break;
             }
